@@ -71,6 +71,13 @@ def discharge(S, ob, leaf_types=None, invariants=None):
         tr = INT_RANGES.get(ty)
         if tr and tr[0] <= r[0] and r[1] <= tr[1]:
             return True, "%s result in [%d, %d] fits %s" % (op, r[0], r[1], ty), iv.used_invariants
+        if tr and op in ("Add", "Sub"):
+            # relational fallback: the guards may bound the *sum* (e.g. `by <= MAX - b`): octagon domain
+            from .intlin import entails_range
+            t = ("iadd" if op == "Add" else "isub", a, b, ty)
+            er = entails_range(S, pc, t, tr[0], tr[1], leaf_types, invariants)
+            if er:
+                return True, "%s result bounded inside %s by the guards (octagon domain)" % (op, ty), iv.used_invariants
         return False, "%s of [%d,%d] and [%d,%d] can leave %s" % (op, ra[0], ra[1], rb[0], rb[1], ty), iv.used_invariants
     if kind in ("OverflowNeg", "AbsOverflow"):
         x = ob["ops"][0]
